@@ -298,7 +298,11 @@ PROPS["C01"] = _hist("C01",
     "histories: a generated workspace (1-6 targets over 5 packages incl. prefix siblings and nested packages; glob / recursive-glob / exclude / missing-file inputs; file, multi-file, dir, bin outputs in not-yet-existing directories; 35% of edges through 1-2 aliases) "
     "followed by 4-12 steps mixing builds (//... or one label/alias) with every edit kind: content edit (incl. revert to an earlier content), boundary shift between adjacent inputs, content swap, add/remove/rename a file under a glob, nonce (command) change, "
     "fingerprint change, output rename, add/remove edge, edge re-routed through an alias, alias re-targeted. Real binary, one persistent cache. After every successful build the declared outputs of every selected target are compared byte-for-byte (and entry-for-entry for dir outputs, exec bits, symlinks) with the harness-computed expectation; every 4th successful build a from-scratch build in a pristine checkout must agree too; exit status, executed set (3-valued model), order and worker bound are checked on every build.",
-    "some build restored >=1 target from the cache after >=1 edit since the previous build")
+    "some build restored >=1 target from the cache after >=1 edit since the previous build",
+    extra_parts=[{"name": "there-and-back", "pkg": "c01", "test": "TestThereAndBack", "binary": True,
+                  "quick": {"shards": 16, "checks": 48, "cap": 1500, "shrinktime": "90s"},
+                  "thorough": {"shards": 32, "checks": 3000, "cap": 14400, "shrinktime": "300s"}}])
+PROPS["C01"]["rule"] = PROPS["C01"]["rule"].replace(" Non-trivial = ", " there-and-back: the same workspaces and oracles on a structured history: one or two targets go S1 -> S2 -> S1 -> S3 -> S1 (content edit and revert, or a file under a glob removed and re-added) two or three times with a full build after every move (a quarter of them load_outputs=minimal) and three quarters of the file outputs rewritten in place by their commands, so that from the second visit on S1 is served from the cache into a workspace that later states write over. Non-trivial = ")
 PROPS["C02"] = _hist("C02",
     "histories: C01's workspaces with edits {content, nonce, boundary shift, add/rename file, fingerprint, re-route through alias} plus workspace perturbations between builds: declared output deleted, its parent directory deleted, truncated, overwritten with longer content, exec bit flipped, stale entry added inside a dir output, dir output replaced by a file; builds in both load_outputs modes, xxh3 and sha256, 1-8 workers. "
     "The executed set of every build (S lines written by the commands themselves) must avoid every MUST-NOT target of the reference model and contain every MUST target; no-op rebuilds execute nothing.",
